@@ -748,9 +748,40 @@ def _root(n):
     return n.id if isinstance(n, ast.Name) else None
 
 
-def _kills(st, paths, names, attrs):
+def _linear(e):
+    """expr -> ({text of atom: coefficient}, constant) for +/- combinations of atoms and integer literals, else None"""
+    if isinstance(e, ast.Constant) and isinstance(e.value, int) and not isinstance(e.value, bool):
+        return {}, e.value
+    if isinstance(e, ast.BinOp) and isinstance(e.op, (ast.Add, ast.Sub)):
+        a, b = _linear(e.left), _linear(e.right)
+        if a is None or b is None:
+            return None
+        sign = 1 if isinstance(e.op, ast.Add) else -1
+        co = dict(a[0])
+        for k, v in b[0].items():
+            co[k] = co.get(k, 0) + sign * v
+        return {k: v for k, v in co.items() if v}, a[1] + sign * b[1]
+    if isinstance(e, (ast.Name, ast.Attribute)):
+        return {ast.unparse(e): 1}, 0
+    return None
+
+
+def _store_below_slice(store: ast.Subscript, value):
+    """`L[i] = ..` cannot change what `L[i + c:]` (c > 0, no upper bound) denotes: same elements, in the same order"""
+    if not (isinstance(value, ast.Subscript) and isinstance(value.slice, ast.Slice) and value.slice.upper is None and value.slice.step is None
+            and value.slice.lower is not None and ast.unparse(value.value) == ast.unparse(store.value) and not isinstance(store.slice, ast.Slice)):
+        return False
+    lo, idx = _linear(value.slice.lower), _linear(store.slice)
+    if lo is None or idx is None or lo[0] != idx[0]:
+        return False
+    return lo[1] - idx[1] > 0
+
+
+def _kills(st, paths, names, attrs, value=None):
     """may executing `st` (its own expressions and nested statements) change the value of an expression reading paths/names?"""
     for n in ast.walk(st):
+        if value is not None and isinstance(n, ast.Subscript) and isinstance(n.ctx, ast.Store) and _store_below_slice(n, value):
+            continue
         if isinstance(n, ast.Name) and isinstance(n.ctx, (ast.Store, ast.Del)) and n.id in names:
             return True
         if isinstance(n, ast.Attribute) and isinstance(n.ctx, (ast.Store, ast.Del)):
@@ -923,7 +954,7 @@ class CopyProp:
             is_loop = isinstance(st, (ast.For, ast.While))
             if is_loop or isinstance(st, (ast.If, ast.Try, ast.With)):
                 # compound statement: substitute only if nothing inside can change the value (a loop re-executes its body)
-                if _kills(st, paths, names | {name}, attrs) and not self._self_store_only(st, name, value, paths, attrs):
+                if _kills(st, paths, names | {name}, attrs, value) and not self._self_store_only(st, name, value, paths, attrs):
                     # the header expression of a non-loop compound statement is evaluated before its body
                     if isinstance(st, ast.If):
                         st.test = S().visit(st.test)
@@ -936,7 +967,7 @@ class CopyProp:
                 continue
             # simple statement: its reads happen before its own store
             S().visit(st)
-            if _kills(st, paths, names | {name}, attrs):
+            if _kills(st, paths, names | {name}, attrs, value):
                 killed = True
         return done, left
 
